@@ -88,6 +88,11 @@ func runC12(e *Env) {
 				if e.Chance(0.04) {
 					dur = -dur
 				}
+				far := e.Chance(0.12) // an identifier living centuries away from the block times (see below)
+				if far && e.Chance(0.5) {
+					// decades to ~250 years: (n-1)*duration no longer fits a time.Duration after a few epochs
+					dur = int64(10+e.Pick(240)) * 365 * day
+				}
 				var start *big.Int
 				switch e.Pick(6) {
 				case 0:
@@ -103,8 +108,18 @@ func runC12(e *Env) {
 				default:
 					start = new(big.Int).Sub(t0, big.NewInt(1))
 				}
+				if far {
+					// start times outside 1678..2262 do not fit an int64 of nanoseconds since 1970 (time.Time itself has
+					// no such limit): year ~1500-1650 (long past: the clock catches up one epoch per block) or ~2300 (parked)
+					yr := int64(1500 + e.Pick(150))
+					if e.Chance(0.4) {
+						yr = int64(2290 + e.Pick(40))
+					}
+					start = TimeNs(time.Date(int(yr), 3, 1, 0, 0, 0, e.Pick(1000), time.UTC))
+					e.Stats.Count("genesis:start-centuries-away")
+				}
 				ep := c12Epoch{ID: id, StartNs: start.String(), DurNs: dur, CurStart: TimeNs(time.Time{}).String()}
-				if e.Chance(0.25) && start.Cmp(TimeNs(time.Time{})) != 0 {
+				if e.Chance(0.25) && start.Cmp(TimeNs(time.Time{})) != 0 && !far { // (far records: (cur-1)*duration could pass year 9999, the protobuf limit)
 					// an already started record, as an exported genesis carries
 					ep.Started = true
 					ep.Cur = 1 + int64(e.Pick(50))
@@ -219,6 +234,12 @@ func runC12(e *Env) {
 				if next.Cmp(now) < 0 { // block times never decrease
 					next = new(big.Int).Set(now)
 					kind = 0
+				}
+				// Block times stay below year 2500: records with century-long durations then stay below year 9999, the
+				// largest time a stored record can hold (protobuf timestamp); a parked identifier (start ~2300) is still reached
+				if next.Cmp(TimeNs(time.Date(2500, 1, 1, 0, 0, 0, 0, time.UTC))) > 0 {
+					next = new(big.Int).Add(now, big.NewInt(int64(time.Second)))
+					kind = 9
 				}
 				e.Stats.Count(fmt.Sprintf("step-kind:%d", kind))
 				now = next
